@@ -139,6 +139,8 @@ type Out struct {
 	Gop    int `json:"gop"`     // gop_num of the three GOP caches
 	GopMax int `json:"gop_max"` // single_gop_max_frame_num
 	Merge  int `json:"merge"`   // rtmp merge_write_size
+	// hls fragment_duration_ms (0 = 1000)
+	HlsFragMs int `json:"hls_frag_ms,omitempty"`
 }
 
 func (o Out) count() int {
@@ -319,10 +321,17 @@ func (f *customizeFeeder) close(s *inproc.Server) {
 	s.Call("customize-del", func() { s.SM.DelCustomizePubSession(f.ctx) })
 }
 
+func pick(v, def int) int {
+	if v == 0 {
+		return def
+	}
+	return v
+}
+
 func toCfg(o Out) inproc.Config {
 	return inproc.Config{
 		DisableRtmp: !o.Rtmp, DisableFlv: !o.Flv, DisableTs: !o.Ts, DisableRtsp: !o.Rtsp,
-		Hls: o.Hls, HlsFragmentMs: 1000, HlsFragmentNum: 3,
+		Hls: o.Hls, HlsFragmentMs: pick(o.HlsFragMs, 1000), HlsFragmentNum: 3,
 		RecordFlv: o.RecFlv, RecordTs: o.RecTs,
 		DummyAudio: o.Dummy, DummyAudioWaitMs: o.WaitMs, Hook: o.Hook,
 		RtmpGopNum: o.Gop, FlvGopNum: o.Gop, TsGopNum: o.Gop,
@@ -334,24 +343,40 @@ func toCfg(o Out) inproc.Config {
 func run(c Case) *pbt.Violation {
 	if tainted.Load() {
 		// A previous case of this process stalled inside lal (reported).  The process is about to exit; rapid's
-		// shrinking attempts in between must not be judged against a manager-independent but CPU-starved state.
+		// shrinking attempts in between must not be judged in a process where a goroutine spins inside lal.
 		return nil
 	}
 	s := inproc.New(toCfg(c.Out))
-	stalled := false
-	defer func() {
-		if stalled {
-			_ = os.RemoveAll(s.Dir) // Close would block on the group lock held by the spinning goroutine
-			return
-		}
-		s.Close()
-	}()
+	e := &env{s: s, stream: hostileStream}
+	v := drive(e, c)
+	if e.stalled {
+		_ = os.RemoveAll(s.Dir) // Close would block on the group lock held by the spinning goroutine
+		return v
+	}
+	if v == nil {
+		e.other.close()
+		v = s.PanicViolation()
+	}
+	s.Close()
+	return v
+}
 
+// env is the server a case is driven against: a fresh one per generated case, a
+// shared one (fresh stream name per input) in the native fuzz target.
+type env struct {
+	s       *inproc.Server
+	stream  string        // name of the hostile stream
+	other   *otherStreamT // the independent stream (created on demand, kept)
+	seq     int           // marker sequence number on the independent stream
+	stalled bool
+}
+
+func drive(e *env, c Case) *pbt.Violation {
+	s := e.s
 	// ---- the independent stream -------------------------------------------------
-	var other *otherStreamT
-	if c.OtherEarly {
+	if c.OtherEarly && e.other == nil {
 		var v *pbt.Violation
-		if other, v = startOther(s); v != nil {
+		if e.other, v = startOther(s); v != nil {
 			return v
 		}
 	}
@@ -359,7 +384,7 @@ func run(c Case) *pbt.Violation {
 	// ---- subscribers ------------------------------------------------------------
 	var subs []*subT
 	defer func() {
-		if stalled {
+		if e.stalled {
 			return
 		}
 		for _, sb := range subs {
@@ -371,7 +396,7 @@ func run(c Case) *pbt.Violation {
 			if sp.JoinAt != k {
 				continue
 			}
-			sb := joinSub(s, sp.Kind)
+			sb := joinSub(s, sp.Kind, e.stream)
 			subs = append(subs, sb)
 			if v := s.PanicViolation(); v != nil {
 				return v
@@ -391,9 +416,15 @@ func run(c Case) *pbt.Violation {
 
 	// ---- the publisher ------------------------------------------------------------
 	var f feeder
+	closed := false
+	defer func() {
+		if f != nil && !closed && !e.stalled {
+			f.close(s) // a violation was found on the way: do not leave the feeding goroutine behind
+		}
+	}()
 	switch c.Path {
 	case "customize":
-		cf, err := newCustomizeFeeder(s, hostileStream)
+		cf, err := newCustomizeFeeder(s, e.stream)
 		if v := s.PanicViolation(); v != nil {
 			return v
 		}
@@ -402,7 +433,7 @@ func run(c Case) *pbt.Violation {
 		}
 		f = cf
 	default:
-		p := lalclient.NewPublisher(s, "live", hostileStream, c.PubChunk)
+		p := lalclient.NewPublisher(s, "live", e.stream, c.PubChunk)
 		if v := s.PanicViolation(); v != nil {
 			return v
 		}
@@ -431,7 +462,7 @@ func run(c Case) *pbt.Violation {
 			return v
 		}
 		if !idle {
-			stalled = true
+			e.stalled = true
 			tainted.Store(true)
 			return stallViolation(k, m, payload)
 		}
@@ -446,24 +477,25 @@ func run(c Case) *pbt.Violation {
 	}
 
 	// ---- O3: an independent stream still relays ---------------------------------------
-	if other == nil {
+	if e.other == nil {
 		var v *pbt.Violation
-		if other, v = startOther(s); v != nil {
+		if e.other, v = startOther(s); v != nil {
 			return v
 		}
 	}
-	if v := other.relayMarker(s, c.Out.Merge); v != nil {
+	e.seq++
+	if v := e.other.relayMarker(s, c.Out.Merge, e.seq); v != nil {
 		return v
 	}
 
 	// ---- teardown of the hostile publisher (flushes remuxers, closes files) ------------
 	f.close(s)
+	closed = true
 	if v := s.PanicViolation(); v != nil {
 		v.Detail = "during publisher teardown: " + v.Detail
 		return v
 	}
-	other.close()
-	return s.PanicViolation()
+	return nil
 }
 
 func prefixHex(b []byte, n int) string {
@@ -644,16 +676,21 @@ func otherFailure(s *inproc.Server, what string, err error) *pbt.Violation {
 	panic(pbt.HarnessError{Msg: fmt.Sprintf("independent stream: %s failed (%v) without a blocked lal goroutine (inconclusive)", what, err)})
 }
 
-func (o *otherStreamT) relayMarker(s *inproc.Server, merge int) *pbt.Violation {
+func (o *otherStreamT) relayMarker(s *inproc.Server, merge int, seq int) *pbt.Violation {
 	// the stream has audio, so that an enabled dummy-audio filter leaves its analysis stage at once
 	cd := gen.Codecs{Video: "avc", Audio: "aac", AscObj: 2, AscFreq: 4, AscChan: 2}
-	items := []gen.Item{
-		{Kind: "vsh", Ts: 0},
-		{Kind: "ash", Ts: 0},
-		{Kind: "audio", Ts: 0, ALen: 20, ASeed: 99000004},
-		{Kind: "video", Ts: 10, Key: true, Nals: []gen.NalSpec{{Hdr: []byte{0x65}, Len: 40, Seed: 0xC05, Serial: 99000005}}},
-		{Kind: "video", Ts: 50, Nals: []gen.NalSpec{{Hdr: []byte{0x41}, Len: merge + 64, Seed: 0xC06, Serial: 99000006}}},
+	ts := uint32(seq) * 100
+	sr := uint32(99000000 + seq*10)
+	var items []gen.Item
+	if seq == 1 {
+		items = append(items, gen.Item{Kind: "vsh", Ts: ts}, gen.Item{Kind: "ash", Ts: ts})
 	}
+	mk := len(items) + 1
+	items = append(items,
+		gen.Item{Kind: "audio", Ts: ts, ALen: 20, ASeed: sr},
+		gen.Item{Kind: "video", Ts: ts + 10, Key: true, Nals: []gen.NalSpec{{Hdr: []byte{0x65}, Len: 40, Seed: sr + 1, Serial: sr + 1}}},
+		gen.Item{Kind: "video", Ts: ts + 50, Nals: []gen.NalSpec{{Hdr: []byte{0x41}, Len: merge + 64, Seed: sr + 2, Serial: sr + 2}}},
+	)
 	for _, it := range items {
 		if err := o.p.SendItem(it, cd, 0); err != nil {
 			if v := s.PanicViolation(); v != nil {
@@ -671,7 +708,7 @@ func (o *otherStreamT) relayMarker(s *inproc.Server, merge int) *pbt.Violation {
 	if v := s.PanicViolation(); v != nil {
 		return v
 	}
-	want := items[3].Payload(cd)
+	want := items[mk].Payload(cd)
 	if o.sub.WaitFor(func(r lalclient.Rec) bool { return r.Type == gen.TypeVideo && bytes.Equal(r.Payload, want) }, 10*time.Second) < 0 {
 		if v := s.PanicViolation(); v != nil {
 			return v
@@ -700,25 +737,24 @@ type subT struct {
 	// rtsp
 	conn  *memconn.Conn
 	rc2   *rtspref.Client
+	url   string
 	state int // 0 waiting for the DESCRIBE response, 1 playing, 2 dead
 }
 
-const rtspURL = "rtsp://127.0.0.1:5544/live/" + hostileStream
-
-func joinSub(s *inproc.Server, kind string) *subT {
-	sb := &subT{kind: kind}
+func joinSub(s *inproc.Server, kind string, stream string) *subT {
+	sb := &subT{kind: kind, url: "rtsp://127.0.0.1:5544/live/" + stream}
 	switch kind {
 	case "rtmp":
-		sb.rc = lalclient.NewRtmpSub(s, "live", hostileStream)
+		sb.rc = lalclient.NewRtmpSub(s, "live", stream)
 	case "flv":
-		sb.rc = lalclient.NewFlvSub(s, "live", hostileStream, false)
+		sb.rc = lalclient.NewFlvSub(s, "live", stream, false)
 	case "ts":
-		sb.ts = lalclient.NewTsSub(s, "live", hostileStream)
+		sb.ts = lalclient.NewTsSub(s, "live", stream)
 	case "rtsp":
 		sb.conn = s.RtspConn()
 		sb.rc2 = rtspref.NewClient(sb.conn)
 		// no OPTIONS: the only thing lal sends before PLAY is then the DESCRIBE response
-		if _, err := sb.rc2.WriteRequest("DESCRIBE", rtspURL, map[string]string{"Accept": "application/sdp"}, nil); err != nil {
+		if _, err := sb.rc2.WriteRequest("DESCRIBE", sb.url, map[string]string{"Accept": "application/sdp"}, nil); err != nil {
 			sb.state = 2
 		}
 		sb.conn.WaitPeerIdle(lalclient.IdleTimeout)
@@ -758,7 +794,7 @@ func (sb *subT) pump() {
 			_ = sb.conn.Close()
 			return
 		}
-		if err := sb.rc2.SetupPlay(rtspURL, ctl); err != nil {
+		if err := sb.rc2.SetupPlay(sb.url, ctl); err != nil {
 			sb.state = 2
 			_ = sb.conn.Close()
 			return
@@ -772,6 +808,9 @@ func (sb *subT) pump() {
 }
 
 func (sb *subT) close() {
+	if sb.kind == "rtsp" {
+		pbt.Count([]string{"rtsp-sub-still-waiting-for-sdp", "rtsp-sub-playing", "rtsp-sub-refused-or-closed"}[sb.state], 1)
+	}
 	switch {
 	case sb.rc != nil:
 		sb.rc.Close()
